@@ -1,17 +1,23 @@
 #!/bin/bash
-# usage: benign_check.sh <patch>...   applies each behaviour-preserving patch to /repo, runs all 20 quick checks, reverts.
+# usage: benign_check.sh [-p "C01 C02"] <patch>...
+# Applies each behaviour-preserving patch to /repo, runs the quick checks (all 20 by default, in parallel), reverts.
 # Prints every alarm (VIOLATION / unresolved / floor) raised; a benign patch must raise none.
 set -u
+export GOFLAGS=-mod=mod GOPROXY=off GOSUMDB=off GOTOOLCHAIN=local GOWORK=off PATH=/opt/veriftools/go1.26.8/bin:$PATH
+props=$(seq -f "C%02g" 1 20)
+if [ "${1:-}" = "-p" ]; then props=$2; shift 2; fi
 [ -z "$(git -C /repo status --porcelain)" ] || { echo "/repo not clean"; exit 2; }
+( cd /verif/atlascheck && go build -o /verif/bin/atlascheck . ) || exit 2
+tmp=$(mktemp -d /tmp/benign.XXXXXX)
 for patch in "$@"; do
-  git -C /repo apply "$patch" || { echo "$patch: does not apply"; continue; }
+  git -C /repo apply "$patch" 2>/dev/null || { echo "$patch: does not apply"; continue; }
+  echo $props | tr ' ' '\n' | xargs -P 10 -I{} sh -c "/verif/bin/atlascheck -prop {} -tier quick -out $tmp/{}.json > $tmp/{}.log 2>&1"
   out=""
-  for i in $(seq -w 1 20); do
-    r=$(cd /verif && ./run.sh C$i quick 2>&1 | grep -A1 "^VIOLATION" | grep "rule=" | cut -c1-260)
-    [ -n "$r" ] && out="$out\n  C$i: $r"
+  for p in $props; do
+    r=$(grep -A1 "^VIOLATION" $tmp/$p.log | grep "rule=" | cut -c1-300)
+    [ -n "$r" ] && out="$out\n  $p: $r"
   done
   git -C /repo checkout -- . ; git -C /repo clean -fdq
   if [ -z "$out" ]; then echo "$patch: silent"; else echo -e "$patch: ALARMS$out"; fi
 done
-# restore evidence of the unchanged tree
-for i in $(seq -w 1 20); do (cd /verif && ./run.sh C$i quick >/dev/null 2>&1); done
+rm -rf $tmp
